@@ -159,15 +159,38 @@ def _strs(name: str, ss: list[str], doc: str) -> str:
     return f"/-- {doc} -/\ndef {name} : List (List Char) :=\n  [{rows}]\n"
 
 
-def _cmap(name: str, m: list[tuple[int, str]], doc: str) -> str:
+def _interval_ok(tab: list[tuple[int, int]], lo: int, hi: int, d: int) -> bool:
+    """the whole image interval lies in one range of the table, or the whole source interval misses the table"""
+    return any(a <= lo + d and hi + d <= b for a, b in tab) or all(hi < a or b < lo for a, b in tab)
+
+
+def split_runs(m: list[tuple[int, str]]):
+    """runs whose class preservation can be checked interval-wise (what the Lean proof of CaseOK does);
+    the characters of the few other runs are moved to the explicit entries"""
     runs, multi = compress(m)
+    t = tables()
+    good = []
+    extra: list[tuple[int, str]] = []
+    for r in runs:
+        lo, hi, st, plus, minus = r
+        d = plus - minus
+        if _interval_ok(t["xidStart"], lo, hi, d) and _interval_ok(t["xidContinue"], lo, hi, d) and not (lo + d <= 95 <= hi + d):
+            good.append(r)
+        else:
+            extra += [(c, chr(c + d)) for c in range(lo, hi + 1, st)]
+    return good, sorted(multi + extra)
+
+
+def _cmap(name: str, m: list[tuple[int, str]], doc: str) -> str:
+    runs, multi = split_runs(m)
     assert expand(runs, multi) == dict(m)
     rows = [", ".join("(" + ", ".join(str(x) for x in r) + ")" for r in runs[i : i + 5]) for i in range(0, len(runs), 5)]
     body = ",\n   ".join(rows)
     srows = ",\n   ".join(f"({c}, [" + ", ".join(str(ord(x)) for x in img) + "])" for c, img in multi)
     return (
         f"/-- {doc}: single-character images as runs (lo, hi, stride, plus, minus), "
-        f"c ↦ c + plus - minus for c = lo, lo+stride, …, hi ({len(m) - len(multi)} characters in {len(runs)} runs) -/\n"
+        f"c ↦ c + plus - minus for c = lo, lo+stride, …, hi ({len(m) - len(multi)} characters in {len(runs)} runs; "
+        f"each run keeps the identifier classes interval-wise) -/\n"
         f"def {name}Runs : List (Nat × Nat × Nat × Nat × Nat) :=\n  [{body}]\n\n"
         f"/-- {doc}: the other images ({len(multi)} entries) -/\n"
         f"def {name}Special : List (Nat × List Nat) :=\n  [{srows}]\n"
